@@ -21,7 +21,7 @@ CLAIM = dict(
           'trapezoid integrand [(x[k+1]+x[k])/2 …, x_last] with Δlog σ(append 0), centred differences divide by centre-to-centre distances; cumsum and '
           'reverse_cumsum accept the same methods, select direction consistently and the matmul form contracts with the ≤ / ≥ triangular mask; centred and '
           'upwind advection pad w and ∂x/∂σ with zeros top-then-bottom and average with −½; sigma ratios, the dense geopotential weights and the '
-          'cumulative-sum form agree with α_j = ½Δlog σ, α_last = −log σ_last, G[j,j]=α_j, G[j,k>j]=α_k+α_{k−1}, scaled by R. Does not decide the '
+          'cumulative-sum form agree with α_j = ½Δlog σ, α_last = −log σ_last, G[j,j]=α_j, G[j,k>j]=α_k+α_{k−1}, scaled by R. Also decided: coordinate arrays (boundaries, centers, thickness) are never updated in place (may-alias analysis shared with C01.7). Does not decide the '
           'telescoping / summation-by-parts identities or exactness on affine data numerically.'),
     note=('Trusted: numpy/jax semantics of diff(append=), concatenate, cumsum, flip, einsum with interleaved axes, lax.slice_in_dim. Recognised idioms are '
           'listed in rules/c13.py; an unrecognised spelling at an anchored site is reported as ANALYSIS-ERROR, not as a verdict.'),
